@@ -239,6 +239,43 @@ class Walker:
             raise Unmodelled("function %r with %d args" % (fn, len(args)))
         raise Unmodelled("expression variety %r" % sorted(e))
 
+    def beyond_closedness(self, e):
+        """Is this a value whose constancy the real compiler may judge differently from
+        closedness?  It mentions a field / parameter / builtin (anywhere, through references)
+        *and* contains a construct that can make such a value constant all the same: the
+        three-valued `&&`, `||`, `?:` folding, a bound function, a static reference (whose
+        value comes from the bounds analysis).  C05's ground: kept out of the correspondence."""
+        st = {"open": False, "fold": False}
+
+        def go(x, depth=0):
+            if depth > 200:
+                return
+            if "field_reference" in x or "builtin_reference" in x:
+                st["open"] = True
+                node = None
+                if "field_reference" in x:
+                    node = self.objs.get(self.ref_key(x["field_reference"]["path"][-1]), (None, None, None))[1]
+                if node and "read_transform" in node:
+                    go(node["read_transform"], depth + 1)
+            elif "constant_reference" in x:
+                kind, node, _ = self.objs.get(self.ref_key(x["constant_reference"]), (None, None, None))
+                if kind == "field":
+                    st["fold"] = True
+                    if "read_transform" in node:
+                        go(node["read_transform"], depth + 1)
+                    else:
+                        st["open"] = True
+            elif "function" in x:
+                fn = x["function"].get("function", 0)
+                if isinstance(fn, str):
+                    fn = FUNC_NAMES.get(fn, 0)
+                if FUNCS.get(fn) in ("and", "or", "choice", "upper", "lower"):
+                    st["fold"] = True
+                for a in x["function"].get("args", []):
+                    go(a, depth + 1)
+        go(e)
+        return st["open"] and st["fold"]
+
     # -- collection of positions (explicit structural walk of the schema)
     def module_line(self):
         exprs, params, locations, arrays, conds, passed, values = [], [], [], [], [], [], []
@@ -319,6 +356,8 @@ class Walker:
                         ok = txt in STR_VALUES.get(nm, ())
                     out.append("%s %s s%d" % (l, kind, 1 if ok else 0))
                 elif "expression" in v:
+                    if ATTR_KINDS[nm] in ("boolconst", "int") and self.beyond_closedness(v["expression"]):
+                        raise Unmodelled("constancy: attribute value is not closed but may fold to a constant")
                     out.append("%s %s x %s" % (l, kind, self.expr(v["expression"], file)))
                 else:
                     raise Unmodelled("attribute value %r" % sorted(v))
